@@ -33,6 +33,11 @@
       (C03_Cd_queue_slack, with C03_Cd_queue_slack_push): tracking every push `(cost, index tuple)` through the
       merges, `pop` hands out the pushes of the cheapest CostTuple, each within 1 of its cost, and every
       popped push is cheaper than every push still stored up to 2 cost units.
+    * C03_Cd_queue_sorted (with the Boolean check C03_Cd_monotone_check) — the queue is a MONOTONE PRIORITY QUEUE: along
+      every protocol run whose pushes cost at least the last popped cost and lie inside the window, the popped
+      costs are non-decreasing (this is the step that makes `_cost_lists_derivation[args]` sorted);
+      C03_Cd_successors_cost — the successor loop of the machine respects that discipline when the cost lists of the
+      argument non-terminals are non-decreasing (every pushed successor costs at least the popped CostTuple).
   NOT proved (compared on every case against the integer costs and exact probabilities computed by
   the harness, with the slack 16 of the pinned tests): that the search keeps its pushes inside the
   window (false: finding C02-F5); the order of the yielded sequence; prefix completeness.
@@ -41,6 +46,7 @@ import PS.Model.Enum.ConstantDelay
 import PS.Proofs.Enum.CDQueue
 import PS.Proofs.Enum.CDOrder
 import PS.Proofs.Enum.CDSlack
+import PS.Proofs.Enum.CDSorted
 namespace PS.C03Cd
 open PS PS.CD
 
@@ -243,5 +249,42 @@ theorem C03_Cd_queue_slack (q q' : Q Rat) (p : CT Rat) (G : List (CT Rat × List
   tracked_pop q q' p G hq ht h
 
 example (q : Q Rat) (h : q.tuples = []) : Tracked q [] := tracked_empty q h
+
+/-! ### the queue as a monotone priority queue -/
+
+/-- **THE POPPED COSTS ARE NON-DECREASING** (exact rationals): run any script of `push` / `update` / `pop` on a queue
+    satisfying the placement invariant such that every pushed cost is at least the cost of the last popped
+    CostTuple (initially any lower bound `lo` of the content) and lies inside the window of the queue at that moment
+    (`Monotone`, decidable on a script: `monotoneB`) — this is how `query_derivation` uses the queue when the cost lists
+    of the argument non-terminals are non-decreasing: it pops `ct`, pushes successors of cost
+    `ct.cost - cl[i] + cl[i+1] ≥ ct.cost`, updates.  Then the sequence of popped costs is non-decreasing, i.e. the
+    derivation cost list `_cost_lists_derivation[args]` it produces is sorted; the invariant is kept. -/
+theorem C03_Cd_queue_sorted (b : Bool) (ops : List QOp) (q q' : Q Rat) (lo : Rat) (out : List (CT Rat))
+    (h : runOps b ops q [] = some (q', out)) (hq : QOrd q) (hl : LowerBound q lo) (hm : Monotone b ops q lo) :
+    QOrd q' ∧ (out.map (·.cost)).Pairwise (· ≤ ·) :=
+  runOps_sorted b ops q [] lo q' out h hq hl hm (by simp) (by simp)
+
+theorem C03_Cd_monotone_check (b : Bool) (ops : List QOp) (q : Q Rat) (lo : Rat) (h : monotoneB b ops q lo = true) :
+    Monotone b ops q lo := monotoneB_sound b ops q lo h
+
+/-- **the machine respects the discipline**: when the cost lists `_cost_lists_nt` of the argument non-terminals are
+    non-decreasing, every successor the model's `succLoop` pushes costs `ct.cost - cl[i] + cl[i+1] ≥ ct.cost`: every
+    lower bound `lo ≤ ct.cost` of the derivation queue of `args` is kept (exact rationals, with or without assert) -/
+theorem C03_Cd_successors_cost (b asserts : Bool) (args : List NT) (c lo : Rat) (comb : List Nat) (hlo : lo ≤ c)
+    (s s' : St Rat) (h : succLoop (ratA b) asserts args c comb comb.length 0 s = some s')
+    (hsorted : ∀ a cl, AList.lookup a s.costNt = some cl → cl.Pairwise (· ≤ ·))
+    (q : Q Rat) (hq : AList.lookup args s.queueDer = some q) (hwf : QWF q) (hl : LowerBound q lo) :
+    ∃ q', AList.lookup args s'.queueDer = some q' ∧ QWF q' ∧ LowerBound q' lo :=
+  succLoop_lowerBound b asserts args c lo comb hlo _ _ s s' h hsorted q hq hwf hl
+
+/-- a script in the style of `query_derivation`: pop, push successors, update -/
+def opsEx : List QOp :=
+  [.push ⟨100, [[0, 0]]⟩, .update, .pop, .push ⟨101, [[1, 0]]⟩, .push ⟨1700, [[0, 1]]⟩, .update, .pop,
+   .push ⟨102, [[2, 0]]⟩, .push ⟨1701, [[1, 1]]⟩, .update, .pop, .update, .pop]
+
+example : ((Q.new (ratA true) 2000 4).bind fun q => (runOps true opsEx q []).map fun r => r.2.map (·.cost)) =
+      some [100, 101, 102, 1700] ∧
+    ((Q.new (ratA true) 2000 4).map fun q => monotoneB true opsEx q 0) = some true := by
+  constructor <;> decide +kernel
 
 end PS.C03Cd
